@@ -36,6 +36,8 @@ type realState struct {
 	hits    map[int]int
 	steps   int
 	budget  bool
+	expect  []event // trace of the reference run
+	stopped bool
 }
 
 var cur realState
@@ -71,7 +73,19 @@ func openBits() (bits uint32) {
 }
 
 func record(k int, class string) {
-	cur.trace = append(cur.trace, event{K: k, Locks: lockBits(), Open: openBits(), Class: class})
+	e := event{K: k, Locks: lockBits(), Open: openBits(), Class: class}
+	i := len(cur.trace)
+	cur.trace = append(cur.trace, e)
+	// A mutex that is held where the reference run has it free would turn the
+	// next with-mutex-lock on it into a deadlock (a hung worker instead of a
+	// verdict): stop the run at the first such marker; the trace comparison
+	// reports it as mutex-state.
+	if i < len(cur.expect) && cur.expect[i].K == k && e.Locks&^cur.expect[i].Locks != 0 {
+		cur.stopped = true
+	}
+	if cur.stopped {
+		panic(&slip.Panic{Message: "c07 run stopped: a mutex is held that must be free"})
+	}
 }
 
 type prim struct {
@@ -116,6 +130,20 @@ func initReal() {
 			k := intArg(s, depth, args, 0)
 			record(k, "")
 			return slip.Fixnum(k)
+		})
+		define("vmx", func(s *slip.Scope, args slip.List, depth int) slip.Object {
+			n := intArg(s, depth, args, 0)
+			if n < 1 || len(cur.mutexes) < n {
+				slip.ErrorPanic(s, depth, "c07 primitive: no mutex %d", n)
+			}
+			sm := (*sync.Mutex)(cur.mutexes[n-1])
+			if !sm.TryLock() {
+				// entering with-mutex-lock now would deadlock
+				cur.stopped = true
+				panic(&slip.Panic{Message: "c07 run stopped: a mutex is held that must be free"})
+			}
+			sm.Unlock()
+			return cur.mutexes[n-1]
 		})
 		define("vtn", func(s *slip.Scope, args slip.List, depth int) slip.Object {
 			record(intArg(s, depth, args, 0), "")
@@ -183,12 +211,13 @@ type realResult struct {
 	Held     uint32
 	OpenEnd  int
 	Budget   bool
+	Stopped  bool   // stopped early: a mutex was held where it must be free
 	Leftover string // an exit marker object came back as the value
 }
 
-func runReal(src string, nMutex int) (res realResult) {
+func runReal(src string, nMutex int, expect []event) (res realResult) {
 	initReal()
-	cur = realState{streams: map[int]*slip.FileStream{}, hits: map[int]int{}}
+	cur = realState{streams: map[int]*slip.FileStream{}, hits: map[int]int{}, expect: expect}
 	scope := slip.NewScope()
 	for i := 1; i <= nMutex; i++ {
 		m := (*gi.Mutex)(&sync.Mutex{})
@@ -198,6 +227,9 @@ func runReal(src string, nMutex int) (res realResult) {
 	scope.Let(slip.Symbol("sv"), slip.Fixnum(0))
 	scope.InterruptCheck = func() {
 		cur.steps++
+		if cur.stopped {
+			panic(&slip.Panic{Message: "c07 run stopped: a mutex is held that must be free"})
+		}
 		if stepBudget < cur.steps {
 			cur.budget = true
 			// a *slip.Panic passes through slip's own unwinding untouched
@@ -215,6 +247,7 @@ func runReal(src string, nMutex int) (res realResult) {
 		val = code.Eval(scope, nil)
 	}()
 	res.Budget = res.Budget || cur.budget
+	res.Stopped = cur.stopped
 	sl.Reset()
 	res.Trace = cur.trace
 	res.Held = lockBits()
@@ -313,7 +346,7 @@ func judge(src string) (v verdict, an *analysis) {
 		}
 	}
 	stepBudget = 2000 + 40*v.ref.Steps
-	v.real = runReal(src, an.nMutex)
+	v.real = runReal(src, an.nMutex, v.ref.Trace)
 	ref, real := v.ref, v.real
 	set := func(fail, format string, a ...any) {
 		if v.fail == "" {
@@ -330,6 +363,8 @@ func judge(src string) (v verdict, an *analysis) {
 		}
 	}
 	switch {
+	case real.Stopped:
+		set("mutex-left-locked", "a mutex is still held after its with-mutex-lock was left: trace so far %s, expected %s", showTrace(real.Trace), showTrace(ref.Trace))
 	case real.Budget:
 		set("no-termination", "still running after %d evaluation steps; expected %s with trace %s", stepBudget, wantOutcome, showTrace(ref.Trace))
 	case real.Err != nil && real.Err.Internal:
@@ -567,7 +602,7 @@ var specials = []Case{
 	{Stream: "special", Label: "let-bound-closure-exit-other-block-between", Src: "(block a (vtr 1) (let ((f (lambda (q) (vtr 5) (return-from a 41)))) (block b (vtr 2) (funcall f 0) (vtr 3)) (vtr 4)) (vtr 6))"},
 	{Stream: "special", Label: "nested cleanups innermost first on error", Src: "(unwind-protect (unwind-protect (unwind-protect (error \"c07\") (vtr 101)) (vtr 102)) (vtr 103))"},
 	{Stream: "special", Label: "nested cleanups innermost first on return-from", Src: "(block a (unwind-protect (let ((u 1)) (unwind-protect (let ((w 2)) (vtr 1) (return-from a 7)) (vtr 101))) (vtr 102)) (vtr 2))"},
-	{Stream: "special", Label: "mutex released on error and re-taken", Src: "(list (ignore-errors (with-mutex-lock m1 (vtr 1) (error \"c07\"))) (with-mutex-lock m1 (vtr 2)))"},
+	{Stream: "special", Label: "mutex released on error and re-taken", Src: "(list (ignore-errors (with-mutex-lock (vmx 1) (vtr 1) (error \"c07\"))) (with-mutex-lock (vmx 1) (vtr 2)))"},
 	{Stream: "special", Label: "stream closed on return-from", Src: "(block a (let ((u 1)) (with-open-file (f1 \"c07-in.txt\" :direction :input) (vreg 1 f1) (vtr 1) (return-from a 5))) (vtr 2))"},
 }
 
@@ -596,7 +631,7 @@ func setup() {
 func nCases(tier string) int {
 	setup()
 	if tier == "thorough" {
-		return nSpecial + nCells + nPairs + nTriples + 300000
+		return nSpecial + nCells + nPairs + nTriples + 1500000
 	}
 	return nSpecial + nCells + nPairs + 60000
 }
